@@ -13,8 +13,8 @@ def add(pid, test, level, quick, thorough, rule, text, note, technique, design, 
 RAPID = "property-based testing (pgregory.net/rapid) against a sorted-map reference model"
 
 add("C01", "TestC01", "exploration",
-    dict(cases=40000, shards=8, extra=[dict(test="TestC01Large", shards=9), dict(test="TestC01Regular", shards=4)]),
-    dict(cases=600000, shards=16, timeout_s=3000, extra=[dict(test="TestC01Large", shards=14), dict(test="TestC01Regular", shards=8, timeout_s=3000)]),
+    dict(cases=40000, shards=8, extra=[dict(test="TestC01Large", shards=9), dict(test="TestC01Regular", shards=4), dict(test="TestC01Sizes", shards=4)]),
+    dict(cases=600000, shards=16, timeout_s=3000, extra=[dict(test="TestC01Large", shards=14), dict(test="TestC01Regular", shards=8, timeout_s=3000), dict(test="TestC01Sizes", shards=8, timeout_s=3000)]),
     "cases = deterministic large shapes (70000-100000 keys: > 65535 nodes and leaves, 257 big nodes, short-table sizes 8-10, > 64 KiB of var-len values) + (key set from families K1..K7/Krand/Kshort) x (values nil|distinct|runs|aba|random|pairdup|const) x 14 encoders x 81 option structs x {fresh, Unmarshal(Marshal), proto round trip}; a case is non-trivial when it retains >= 2 keys and has a stored step, a key that is a prefix of another, or a byte >= 0x80; distinct = FNV-64 of the canonical case",
     "Generated-input search: every retained key of every generated trie is looked up with Get and GetID and compared with the model's retained-key rule computed on independently encoded values. Shapes are constructed so that 257-bit nodes, short nodes of each table size, long steps, prefix keys, the empty key and bytes >= 0x80 occur by design; the class histogram in the evidence shows how often. Not a proof: absence of counterexamples in the explored space.",
     "Trusted: the reference model and the independent value encodings in the harness. Not reached: > 10^5 keys, node ids near 2^31, 32-bit platforms.",
@@ -43,7 +43,7 @@ add("C09", "TestC09", "exploration",
     "Trusted: reference model.", RAPID, "DESIGN.md §4 C09")
 
 add("C10", "TestC10", "exploration",
-    dict(cases=12000, shards=8, extra=[dict(test="TestC10Exhaustive", shards=8), dict(test="TestC10Regular", shards=4)]), dict(cases=200000, shards=16, timeout_s=3000, extra=[dict(test="TestC10Exhaustive", shards=16, timeout_s=3000), dict(test="TestC10Regular", shards=8, timeout_s=3000)], fuzz=dict(target="FuzzC10", seconds=240)),
+    dict(cases=12000, shards=8, extra=[dict(test="TestC10Exhaustive", shards=8), dict(test="TestC10Regular", shards=4), dict(test="TestC10Sizes", shards=4)]), dict(cases=200000, shards=16, timeout_s=3000, extra=[dict(test="TestC10Exhaustive", shards=16, timeout_s=3000), dict(test="TestC10Regular", shards=8, timeout_s=3000), dict(test="TestC10Sizes", shards=8, timeout_s=3000)], fuzz=dict(target="FuzzC10", seconds=240)),
     "cases as C01 (all modes, nil values, empty and single-key tries, fresh/reloaded) queried with Q(keys) plus 64 KiB strings of 0x00/0xff and a 70 000 byte string; non-trivial = a false positive was observed or an absent query shares a prefix with a retained key",
     "Generated-input search over relations that need no per-mode expectation: no panic; Get.found <=> GetID>=0 <=> Search.eq != nil; Get.found => RangeGet.found with the same value; every returned value was supplied at build time.",
     "Trusted: harness bookkeeping of supplied values. Non-termination is only detected through the test deadline (reported as inconclusive, exit 2).",
@@ -74,14 +74,14 @@ add("C19", "TestC19", "exploration",
     "Trusted: the rendering grammar of openacid/low/tree and the documented line format.", RAPID, "DESIGN.md §4 C19")
 
 add("C04", "TestC04", "exploration",
-    dict(cases=12000, shards=8, extra=[dict(test="TestC04Regular", shards=4)]), dict(cases=200000, shards=16, timeout_s=3000, extra=[dict(test="TestC04Regular", shards=8, timeout_s=3000)], fuzz=dict(target="FuzzC04", seconds=180)),
+    dict(cases=12000, shards=8, extra=[dict(test="TestC04Regular", shards=4), dict(test="TestC04Sizes", shards=4)]), dict(cases=200000, shards=16, timeout_s=3000, extra=[dict(test="TestC04Regular", shards=8, timeout_s=3000), dict(test="TestC04Sizes", shards=8, timeout_s=3000)], fuzz=dict(target="FuzzC04", seconds=180)),
     "Complete tries (fresh, reloaded, loaded from generated 0.5.10/0.5.11 allpref streams; all encoders incl. String16) x drawn scans (API ScanFrom/ScanFromTo/NewIter, start and end from Q(keys) or drawn, both inclusivities, with/without values, callback stop point) + a sweep with every string of Q(keys) as start + full scans; refusal clause: every non-Complete effective mode x dedup x with/without values (12 classes, counted); non-trivial = a scan that yields >= 3 entries from an absent or exclusive start on a trie with a stored inner prefix or a 257-bit node (refusal: >= 2 keys and >= 1 step)",
     "Generated-input search: each scan must yield exactly the model's slice of retained entries (keys bytewise, each once, ascending, value bytes equal to the independent reference encoding, nil when not requested/supplied), invoke the callback exactly once per entry, stop at the stop point, and report exhaustion on 3 further calls. On a non-Complete trie a scan must panic before yielding anything, or yield exactly the model's answer (possible only when the trie happens to hold complete keys).",
     "Trusted: reference model, reference value encodings, legacy 0.5.10 writer (validated against the archive).", RAPID, "DESIGN.md §4 C04")
 
 add("C05", "TestC05", "exploration",
-    dict(cases=6000, shards=8, extra=[dict(test="TestC05Large", shards=9)]),
-    dict(cases=160000, shards=16, timeout_s=3000, extra=[dict(test="TestC05Large", shards=14)]),
+    dict(cases=6000, shards=8, extra=[dict(test="TestC05Large", shards=9), dict(test="TestC05Sizes", shards=4)]),
+    dict(cases=160000, shards=16, timeout_s=3000, extra=[dict(test="TestC05Large", shards=14), dict(test="TestC05Sizes", shards=8, timeout_s=3000)]),
     "deterministic large shapes (short-table sizes 8-10, > 65535 nodes/steps/prefixes) round-tripped + 3/4 round-trip cases: a generated trie (all modes/encoders/value layouts) marshalled, rebuilt, reloaded via Unmarshal or proto.Unmarshal; 1/4 history cases: a drawn sequence of 1..6 operations {Unmarshal, proto.Unmarshal, Reset, Unmarshal(truncated stream), Unmarshal(incompatible version)} on ONE instance over a pool of 2..4 streams (empty/small/large, different modes, current and legacy layouts); non-trivial = round trip of a trie with >= 1 inner node, or a history in which a smaller stream or a failed load follows a larger one",
     "Round trip: len(Marshal) == proto.Size, building twice gives identical bytes, proto.Marshal == Marshal, re-marshalling the loaded trie reproduces the bytes, and every API (Get/GetID/RangeGet/Search on Q(keys), scans, Stat, String) answers identically on the fresh and the loaded trie (including false positives). Histories (stateful, model = a fresh twin loaded with only the last successfully applied stream): after every step the instance is observationally equal to the twin; empty on every API after Reset; empty for lookups and scans after a failed load.",
     "Trusted: the twin (a fresh instance loaded once) as the model of 'no residue'. Stat() after a FAILED direct Unmarshal is not asserted (no listed property constrains it).",
